@@ -153,10 +153,12 @@ Definition C05_full_statement : Prop := Deps_examples.full_statement.
 Theorem C05_full_statement_refuted : ~ C05_full_statement.
 Proof. exact Deps_examples.full_statement_refuted. Qed.
 
-(* ---- known finding C05-reflist-flatten-id-read: the hypothesis [read_ok] fails for one access path of
-   the unchanged code.  `RecordSet.reflistcol` (table.py _get_col_obj_subset -> ReferenceList.do_convert)
-   reads `rec.id` through records carrying the bare ReferenceRelation; that relation does not map the read
-   row back to the reader, the composed one (which ordinary field access records) does. *)
+(* ---- finding C05-reflist-flatten-id-read (REPAIRED by /repo commit eb8849a; its witness is replayed first
+   on every run as a regression case).  Kept as documentation of why the edge the old code recorded was
+   unsound: `RecordSet.reflistcol` (table.py _get_col_obj_subset -> ReferenceList.do_convert) read `rec.id`
+   through records carrying the bare ReferenceRelation; that relation does not map the read row back to
+   the reader, the composed one (which ordinary field access records) does.  The repaired code takes the
+   row ids from the RecordSets and records no edge there; the dependency is the one on the RefList cells. *)
 Theorem C05_flatten_edge_refuted :
   covers Deps_examples.fl_R (RRef 7) 9 1 = false /\
   covers Deps_examples.fl_R (RComp (RLook 20 2) (RRef 7)) 9 1 = true.
